@@ -10,6 +10,7 @@ The oracle (`search`) checks the property itself on the real objects against pla
 """
 import atexit
 import copy
+import pickle
 import json
 import math
 import os
@@ -245,9 +246,21 @@ def translate(ctx):
 
 
 # ----------------------------------------------------------------------------- JSON-able arguments
+Window = __import__("collections").namedtuple("Window", "lower upper")      # a tuple subclass, as a caller may pass it
+
+
+class LazyArg:
+    """a one-shot iterable argument (iter(list) / map / generator) in replayable form"""
+
+    def __init__(self, kind, items):
+        self.kind, self.items = kind, list(items)
+
+
 def arg_to_json(a):
     if a is None:
         return {"t": "none"}
+    if isinstance(a, Window):
+        return {"t": "namedtuple", "v": [arg_to_json(x) for x in a]}
     if isinstance(a, np.ndarray):
         return {"t": "ndarray", "v": [int(x) for x in a]}
     if isinstance(a, tuple):
@@ -256,9 +269,15 @@ def arg_to_json(a):
         return {"t": "list", "v": [arg_to_json(x) for x in a]}
     if isinstance(a, (set, frozenset)):
         return {"t": "set", "v": [arg_to_json(x) for x in sorted(a)]}
+    if isinstance(a, LazyArg):
+        return {"t": a.kind, "v": [arg_to_json(x) for x in a.items]}
+    if isinstance(a, np.floating):
+        return {"t": "npfloat", "v": float(a)}
     if isinstance(a, (bool, str)):
         return {"t": "lit", "v": a}
-    if isinstance(a, (int, np.integer)):
+    if isinstance(a, np.integer):
+        return {"t": "npint", "v": int(a)}
+    if isinstance(a, int):
         return {"t": "int", "v": int(a)}
     return {"t": "float", "v": float(a)}
 
@@ -275,6 +294,15 @@ def arg_from_json(d):
         return [arg_from_json(x) for x in d["v"]]
     if t == "set":
         return {arg_from_json(x) for x in d["v"]}
+    if t == "namedtuple":
+        return Window(*[arg_from_json(x) for x in d["v"]])
+    if t in ("iter", "map", "generator"):
+        items = [arg_from_json(x) for x in d["v"]]
+        return iter(items) if t == "iter" else (map(int, items) if t == "map" else (x for x in items))
+    if t == "npfloat":
+        return np.float64(d["v"])
+    if t == "npint":
+        return np.int64(d["v"])
     return d["v"]
 
 
@@ -297,7 +325,9 @@ def gen_oscar_row(rng, ext):
          None, rng.choice([-2, -1, 0, 0, 1, 1, 2])]
     if ext:
         r += [rng.choice([0, 0, 1, 2, 5]), 0.5, 1.0, rng.choice([0, 3, 7]), rng.choice([0, 1, 5]), rng.choice([0.0, 0.5, 2.0]),
-              rng.choice([0, 2212, 113]), rng.choice([0, 211]), rng.choice([-1, 0, 1]), rng.choice([-1, 0, 1])]
+              rng.choice([0, 2212, 113]), rng.choice([0, 211])]
+        if ext != "old":         # "old": Oscar2013Extended as older SMASH versions wrote it, without the two trailing columns
+            r += [rng.choice([-1, 0, 1]), rng.choice([-1, 0, 1])]
     return r
 
 
@@ -323,6 +353,8 @@ def gen_file(rng, kind, ext=None):
     sizes = gen_sizes(rng)
     if kind == "o":
         ext = (rng.random() < 0.6) if ext is None else ext
+        if ext is True and rng.random() < 0.35:
+            ext = "old"           # same reported format (Oscar2013Extended), 20 instead of 22 columns
         evs = [[gen_oscar_row(rng, ext) for _ in range(m)] for m in sizes]
         d = {"kind": "o", "ext": ext, "events": evs}
     else:
@@ -335,6 +367,10 @@ def gen_file(rng, kind, ext=None):
         for r in ev:
             r[idcol] = n
             n += 1
+    if rng.random() < 0.25:
+        okv = text_variants_ok(kind)
+        if okv:
+            d["text"] = rng.sample(okv, rng.randint(1, len(okv)))
     return d
 
 
@@ -342,35 +378,82 @@ def footer_text(fileno, i):
     return f"# event {i} end 0 impact   {fileno}.{i:03d} scattering_projectile_target yes\n"
 
 
-def write_file(desc, fileno):
-    """writes the file, returns its path"""
+TEXT_VARIANTS = ["crlf", "trail-comment", "trail-particle", "nonascii"]
+_TEXT_OK = {}
+
+
+def write_file(desc, fileno, directory=None):
+    """writes the file, returns its path (bare file name when written into `directory`)"""
+    tv = set(desc.get("text") or [])
+    nl = "\r\n" if "crlf" in tv else "\n"
+    tc = "  " if "trail-comment" in tv else ""
+    tp = " " if "trail-particle" in tv else ""
+    na = " \u00fcn\u00efc\u00f6d\u00e9 \u03b1\u03b2" if "nonascii" in tv else ""
+    lines = []
     if desc["kind"] == "o":
-        path = os.path.join(tmpdir(), f"f{fileno}.oscar")
-        with open(path, "w") as f:
-            if desc["ext"]:
-                f.write("#!OSCAR2013Extended particle_lists t x y z mass p0 px py pz pdg ID charge ncoll form_time xsecfac "
-                        "proc_id_origin proc_type_origin time_last_coll pdg_mother1 pdg_mother2 baryon_number strangeness\n")
-                f.write("# Units: fm fm fm fm GeV GeV GeV GeV GeV none none e none fm none none none fm none none none none\n")
-            else:
-                f.write("#!OSCAR2013 particle_lists t x y z mass p0 px py pz pdg ID charge\n")
-                f.write("# Units: fm fm fm fm GeV GeV GeV GeV GeV none none e\n")
-            f.write("# SMASH-3.1\n")
-            for i, ev in enumerate(desc["events"]):
-                f.write(f"# event {i} out {len(ev)}\n")
-                for r in ev:
-                    f.write(" ".join(repr(x) for x in r) + "\n")
-                f.write(footer_text(fileno, i))
+        name = f"f{fileno}.oscar"
+        if desc["ext"]:
+            extra = "" if desc["ext"] == "old" else " baryon_number strangeness"
+            lines.append("#!OSCAR2013Extended particle_lists t x y z mass p0 px py pz pdg ID charge ncoll form_time xsecfac "
+                         "proc_id_origin proc_type_origin time_last_coll pdg_mother1 pdg_mother2" + extra + tc)
+            lines.append("# Units: fm fm fm fm GeV GeV GeV GeV GeV none none e none fm none none none fm none none" +
+                         ("" if desc["ext"] == "old" else " none none") + tc)
+        else:
+            lines.append("#!OSCAR2013 particle_lists t x y z mass p0 px py pz pdg ID charge" + tc)
+            lines.append("# Units: fm fm fm fm GeV GeV GeV GeV GeV none none e" + tc)
+        lines.append("# SMASH-3.1" + na + tc)
+        for i, ev in enumerate(desc["events"]):
+            lines.append(f"# event {i} out {len(ev)}")
+            for r in ev:
+                lines.append(" ".join(repr(x) for x in r) + tp)
+            lines.append(footer_text(fileno, i).rstrip("\n") + na + tc)
     else:
-        path = os.path.join(tmpdir(), f"f{fileno}.dat")
+        name = f"f{fileno}.dat"
         what = "N_partons" if desc["parton"] else "N_hadrons"
-        with open(path, "w") as f:
-            f.write("#\tJETSCAPE_FINAL_STATE\tv2\t|\tN\tpid\tstatus\tE\tPx\tPy\tPz\n")
-            for i, ev in enumerate(desc["events"]):
-                f.write(f"#\tEvent\t{i + 1}\tweight\t1\tEPangle\t0\t{what}\t{len(ev)}\n")
-                for r in ev:
-                    f.write(" ".join(repr(x) for x in r) + "\n")
-            f.write("#\tsigmaGen\t0.000314633\tsigmaErr\t6.06164e-07\n")
-    return path
+        lines.append("#\tJETSCAPE_FINAL_STATE\tv2\t|\tN\tpid\tstatus\tE\tPx\tPy\tPz" + na + tc)
+        for i, ev in enumerate(desc["events"]):
+            lines.append(f"#\tEvent\t{i + 1}\tweight\t1\tEPangle\t0\t{what}\t{len(ev)}")
+            for r in ev:
+                lines.append(" ".join(repr(x) for x in r) + tp)
+        lines.append("#\tsigmaGen\t0.000314633\tsigmaErr\t6.06164e-07")
+    path = os.path.join(directory or tmpdir(), name)
+    with open(path, "w", encoding="utf-8", newline="") as f:
+        f.write("".join(l + nl for l in lines))
+    return name if directory else path
+
+
+def text_variants_ok(kind):
+    """which text variants (CRLF line ends, trailing blanks, non-ASCII free text) the code under test reads exactly like
+    the plain file — probed once per run on a small file; only those are used by the generators"""
+    if kind in _TEXT_OK:
+        return _TEXT_OK[kind]
+    import random as _r
+    rng = _r.Random(99)
+    base = gen_file(rng, kind, True) if kind == "o" else gen_file_with(rng, "j", False)
+    base.pop("text", None)
+    rows = [gen_oscar_row(rng, True) if kind == "o" else gen_jetscape_row(rng, False) for _ in range(3)]
+    base["events"] = renumber(base, [rows[:2], [], rows[2:]])
+
+    def observe(desc, n):
+        from sparkx.Oscar import Oscar
+        from sparkx.Jetscape import Jetscape
+        path = write_file(desc, 9000 + n)
+        s = (Oscar if kind == "o" else Jetscape)(path)
+        return (s.num_events(), np.asarray(s.num_output_per_event()).tolist(),
+                [[rowkey(s._particle_as_list(p)) for p in ev] for ev in s.particle_objects_list()])
+    ok = []
+    try:
+        want = observe(base, 0)
+    except Exception:
+        want = None
+    for k, v in enumerate(TEXT_VARIANTS):
+        try:
+            if want is not None and observe(dict(base, text=[v]), k + 1) == want:
+                ok.append(v)
+        except Exception:
+            pass
+    _TEXT_OK[kind] = ok
+    return ok
 
 
 # ----------------------------------------------------------------------------- call forms
@@ -381,6 +464,31 @@ PARAMS = {"particle_species": ["pdg_list"], "remove_particle_species": ["pdg_lis
           "multiplicity_cut": ["cut_value_tuple"], "spacetime_cut": ["dim", "cut_value_tuple"],
           "particle_status": ["status_list"]}
 CTOR_PARAM = {"p": "particle_object_list", "o": "OSCAR_FILE", "j": "JETSCAPE_FILE"}
+# documented order of `ParticleObjectStorer.particle_list()` rows
+POBJ_COLUMNS = ["t", "x", "y", "z", "mass", "E", "px", "py", "pz", "pdg", "ID", "charge", "ncoll", "form_time", "xsecfac",
+                "proc_id_origin", "proc_type_origin", "t_last_coll", "pdg_mother1", "pdg_mother2", "baryon_number",
+                "strangeness", "weight", "status"]
+
+
+def vary_args(rng, name, args):
+    """the same valid argument as a caller may also write it: a tuple subclass for a cut tuple, numpy floats for limits,
+    a numpy integer for a single PDG code (forms the clean code accepts — probed when the device was built)"""
+    if rng.random() > 0.25:
+        return args
+    if name in ("pT_cut", "mT_cut", "spacetime_cut") and isinstance(args[-1], tuple) and len(args[-1]) == 2:
+        t = args[-1]
+        if rng.random() < 0.5:
+            t = Window(*t)
+        else:
+            t = tuple(np.float64(v) if isinstance(v, (int, float)) and not isinstance(v, bool) else v for v in t)
+        return args[:-1] + (t,)
+    if name in ("rapidity_cut", "pseudorapidity_cut", "spacetime_rapidity_cut") and isinstance(args[0], (int, float)):
+        return (np.float64(args[0]),)
+    if name in ("particle_species", "remove_particle_species") and isinstance(args[0], int):
+        return (np.int64(args[0]),)
+    if name == "lower_event_energy_cut" and isinstance(args[0], float):
+        return (np.float64(args[0]),)
+    return args
 
 
 def gen_form(rng, name):
@@ -415,9 +523,10 @@ INVALID_ARGS = {
     "spacetime_rapidity_cut": [((None, 1.0),), ("a",)],
     "spacetime_cut": [("w", (0.0, 1.0)), ("x", (None, None)), ("x", [0.0, 1.0]), (3, (0.0, 1.0)), ("t", (0.0, 1.0, 2.0))],
     "lower_event_energy_cut": [(-1.0,), (0,), ("a",), (float("nan"),)],
-    "particle_species": [("a",), (None,), ([211, "a"],), ({211},)],
-    "remove_particle_species": [(None,), ({211},)],
-    "particle_status": [("x",), (1.5,), ([1, "a"],)],
+    "particle_species": [("a",), (None,), ([211, "a"],), ({211},), (LazyArg("iter", [211]),), (LazyArg("map", [211, 2212]),),
+                         (LazyArg("generator", [211]),)],
+    "remove_particle_species": [(None,), ({211},), (LazyArg("iter", [211, 22]),)],
+    "particle_status": [("x",), (1.5,), ([1, "a"],), (LazyArg("generator", [1, 0]),)],
 }
 # the subset whose error kind the Lean model is known to reproduce (C03's malformed stream)
 MODEL_SAFE = {("pT_cut", 0), ("pT_cut", 1), ("pT_cut", 2), ("mT_cut", 1), ("multiplicity_cut", 0), ("rapidity_cut", 0),
@@ -619,6 +728,72 @@ def origin_of(kwj):
         ("filters" if "filters" in kwj else "")
 
 
+class ListSubclass(list):
+    pass
+
+
+COPY_MODES = ["copy", "deepcopy", "pickle"]
+
+
+def transform(s, mode):
+    """an object under test replaced by its copy before use"""
+    if mode == "copy":
+        return copy.copy(s)
+    if mode == "deepcopy":
+        return copy.deepcopy(s)
+    if mode == "pickle":
+        return pickle.loads(pickle.dumps(s))
+    return s
+
+
+class Env:
+    """unusual but legal process environment for a whole program: cwd = a fresh directory (files are addressed by bare
+    relative names), non-default numpy print options, np.seterr(all="warn"), advanced `random` / `np.random` global states.
+    `changed()` names what a call left different; everything is restored on exit."""
+
+    def __init__(self, prog):
+        self.on = bool(prog.get("env"))
+
+    def __enter__(self):
+        if self.on:
+            import random as _r
+            self.saved = (os.getcwd(), np.get_printoptions(), np.geterr(), _r.getstate(), np.random.get_state())
+            os.chdir(tempfile.mkdtemp(prefix="env_", dir=tmpdir()))
+            np.set_printoptions(precision=3, threshold=5, linewidth=40, suppress=True)
+            np.seterr(all="warn")
+            _r.seed(987654321)
+            [_r.random() for _ in range(17)]
+            np.random.seed(4321)
+            np.random.rand(5)
+            self.mark = self.state()
+        return self
+
+    def state(self):
+        import random as _r
+        st = np.random.get_state()
+        return {"cwd": os.getcwd(), "np.geterr": dict(np.geterr()), "np.printoptions": repr(sorted(np.get_printoptions().items())),
+                "random state": hash(_r.getstate()), "np.random state": (st[0], st[1].tobytes(), st[2], st[3], st[4])}
+
+    def changed(self):
+        if not self.on:
+            return []
+        now = self.state()
+        out = [k for k in now if now[k] != self.mark[k]]
+        self.mark = now
+        return out
+
+    def __exit__(self, *a):
+        if self.on:
+            import random as _r
+            cwd, po, err, rs, nrs = self.saved
+            os.chdir(cwd)
+            np.set_printoptions(**po)
+            np.seterr(**err)
+            _r.setstate(rs)
+            np.random.set_state(nrs)
+        return False
+
+
 class World:
     """one execution of a program on the real classes"""
 
@@ -633,6 +808,7 @@ class World:
         self.nuid = 0
         self.footer_ids = {}
         self.nfooter = 0
+        self.rowof = {}         # id(particle) -> expected particle_list() row
 
     # -- identities
     def uid_of(self, p):
@@ -651,10 +827,28 @@ class World:
     # -- sources
     def path(self, src):
         if src not in self.paths:
-            self.paths[src] = write_file(self.prog["sources"][src], len(self.paths) + 1)
+            self.paths[src] = write_file(self.prog["sources"][src], len(self.paths) + 1,
+                                         os.getcwd() if self.prog.get("env") else None)
         return self.paths[src]
 
-    def load(self, src, kw, form="pos", explicit_default=False):
+    def register_rows(self, src, s):
+        """the row `particle_list()` must show for every particle of a freshly loaded storer, from the source itself:
+        the particle's line of the file in column order; for a nested list the documented getters in documented order"""
+        d = self.prog["sources"][src]
+        if d["kind"] == "p":
+            for ev in s.particle_objects_list():
+                for p in ev:
+                    self.rowof[id(p)] = rowkey([getattr(p, a) for a in POBJ_COLUMNS])
+                    self.keep.append(p)
+            return
+        idcol = 10 if d["kind"] == "o" else 0
+        byid = {int(r[idcol]): r for ev in d["events"] for r in ev}
+        for ev in s.particle_objects_list():
+            for p in ev:
+                self.rowof[id(p)] = rowkey(byid[int(p.ID)])
+                self.keep.append(p)
+
+    def load(self, src, kw, form="pos", explicit_default=False, input_mode=None):
         d = self.prog["sources"][src]
         def build(cls, first):
             return cls(**dict({CTOR_PARAM[d["kind"]]: first}, **kw)) if form == "kw" else cls(first, **kw)
@@ -674,7 +868,16 @@ class World:
                         p.ID = 1000 * (int(src[1:]) + 1) + n
                         n += 1
                 self.full[src] = objs
-            return build(ParticleObjectStorer, [list(ev) for ev in self.full[src]])
+            nested = [list(ev) for ev in self.full[src]]
+            if input_mode == "deepcopy":
+                nested = copy.deepcopy(nested)              # the caller hands over copies of the particles
+            elif input_mode == "pickle":
+                nested = pickle.loads(pickle.dumps(nested))
+            elif input_mode == "listsubclass":
+                nested = ListSubclass(ListSubclass(ev) for ev in nested)
+            elif input_mode == "tuple-events":
+                nested = [tuple(ev) for ev in nested]      # events given as tuples (accepted by the clean code, probed)
+            return build(ParticleObjectStorer, nested)
         if d["kind"] == "o":
             from sparkx.Oscar import Oscar
             return build(Oscar, self.path(src))
@@ -714,7 +917,8 @@ class World:
         table = {u: p for p in self.keep for u in [self.uid[id(p)]]}
 
         def key(u):
-            return rowkey(s._particle_as_list(table[u]))
+            p = table[u]
+            return self.rowof[id(p)] if id(p) in self.rowof else rowkey(s._particle_as_list(p))
         if isinstance(struct, str):
             return struct
         if struct and isinstance(struct[0], list) or struct == [] or any(isinstance(x, list) for x in struct):
@@ -821,6 +1025,11 @@ def encode_leaf(w, step, s):
 
 
 def run_program(prog, oracle=None):
+    with Env(prog):
+        return _run_program(prog)
+
+
+def _run_program(prog, oracle=None):
     """execute on the real classes. Returns (world, instrs, observations); observation = dict or 'err kind'.
     Stops after the first exception.  `oracle(world, step_index, step, result)` may record property failures."""
     w = World(prog)
@@ -830,7 +1039,9 @@ def run_program(prog, oracle=None):
         try:
             if op == "leaf":
                 kw = kwargs_from_json(step.get("kwargs", {}))
-                s = w.load(step["src"], kw, step.get("form", "pos"), step.get("explicit_default", False))
+                s = w.load(step["src"], kw, step.get("form", "pos"), step.get("explicit_default", False), step.get("input"))
+                s = transform(s, step.get("copy"))
+                w.register_rows(step["src"], s)
                 w.regs.append(s)
                 d = prog["sources"][step["src"]]
                 w.meta.append({"kind": d["kind"], "ptype": 1 if d.get("parton") else 0})
@@ -847,6 +1058,8 @@ def run_program(prog, oracle=None):
                 a, b = w.regs[step["a"]], w.regs[step["b"]]
                 instrs.append(f"A@{step['a']}@{step['b']}")
                 target = invoke_add(a, b, step.get("form", "op"))
+                if step.get("copy") == "copy":
+                    target = copy.copy(target)       # (deep copies of sums: oracle only — the model names particles by identity)
                 w.regs.append(target)
                 w.meta.append(dict(w.meta[step["a"]]))
         except Exception as e:
@@ -972,8 +1185,9 @@ def gen_program(rng, maxlen=12, want_kind=None):
                 names = [n for n in ["multiplicity_cut", "lower_event_energy_cut", "charged_particles", "uncharged_particles",
                                      "pT_cut", "remove_particle_species"] if n not in NOT_IMPLEMENTED[k]]
             name, args = pmodel.gen_call(rng, names)
+            args = vary_args(rng, name, args)
             prog["steps"].append({"op": "filter", "reg": reg, "name": name, "args": args_to_json(args), "form": gen_form(rng, name)})
-    return prog
+    return with_devices(rng, prog)
 
 
 def model_view(prog):
@@ -1204,6 +1418,11 @@ def correspond(ctx):
                            "particle_list() rows are compared by value with `_particle_as_list` of the held objects; operand aliasing "
                            "(a, b unchanged by a+b) is checked on the real objects only; Jetscape sigmaGen averaging is not modelled "
                            "(not among the property's observables, and not associative)")
+    ctx.assumptions.append("C04 round-4 devices: text variants of the input files (CRLF, trailing blanks, non-ASCII free text) are used only "
+                           "where the readers read them exactly like the plain file (probed each run, see coverage."
+                           "text_variants_read_like_plain_file); the others are rejected loudly (ValueError) by the readers, which is "
+                           "C01/C07's subject, not C04's; `events=` given as a list or numpy integer is silently ignored by "
+                           "ParticleObjectLoader (selection = C02's subject) and is not generated here")
     ctx.rule = ("random programs (<= 12 steps) over registers of real storers: ParticleObjectStorer(nested list, incl. [] and [[]]), "
                 "Oscar2013 / Oscar2013Extended and JETSCAPE hadron/parton files written by the harness (1-5 events, empty events, "
                 "one 12-particle event), each loaded whole / events=k / events=(a,b) / filters= / both; steps = any filter method with "
@@ -1287,7 +1506,7 @@ def same_snapshot(x, y):
     return all(np.array_equal(x[5][k], y[5][k], equal_nan=True) for k in x[5])
 
 
-def check_state(s, ref, cls, origin):
+def check_state(s, ref, cls, origin, rowof=None):
     """the property's per-state clauses against the reference `ref = dict(events=[[obj]] | None, first=label | None)`.
     A storer with num_events()==0 holds no event; its particle_objects_list() is [] or the placeholder [[]]
     (the constructors' representation of "every event removed by filters=", pinned by the test-suite).
@@ -1327,7 +1546,7 @@ def check_state(s, ref, cls, origin):
             raise Fail("no-events-particle_list-raises", f"[{C} {origin}] no event held (num_events()==0): particle_list() raised "
                        f"{type(e).__name__}: {e}")
         raise Fail(f"{C}-{o}-particle_list-raises-{type(e).__name__}", f"[{origin}] particle_list() raised {type(e).__name__}: {e}")
-    want = [[rowkey(s._particle_as_list(p)) for p in ev] for ev in heldl]
+    want = [[(rowof[id(p)] if rowof is not None and id(p) in rowof else rowkey(s._particle_as_list(p))) for p in ev] for ev in heldl]
     got = canon_pl(pl)
     exp = ("F", want[0]) if len(heldl) == 1 else ("N", want)
     if not exp[1]:
@@ -1409,7 +1628,7 @@ def check_ctor_filters(w, step, s, cls, kw, origin, stats):
     nev = s.num_events()
     zero = nev is not None and int(nev) == 0 and (pol == [] or pol == [[]])
     heldl = [] if zero else pol
-    if cls == "p":
+    if cls == "p" and not step.get("copy") in ("deepcopy", "pickle") and not step.get("input") in ("deepcopy", "pickle"):
         same = len(heldl) == len(want) and all(len(a) == len(b) and all(p is q for p, q in zip(a, b)) for a, b in zip(heldl, want))
     else:
         same = pid_lists(heldl) == pid_lists(want)
@@ -1420,6 +1639,13 @@ def check_ctor_filters(w, step, s, cls, kw, origin, stats):
 
 
 def oracle_program(prog, rng=None, stats=None):
+    with Env(prog) as env:
+        if env.on and stats is not None:
+            stats["device/env"] = stats.get("device/env", 0) + 1
+        return _oracle_program(prog, rng, stats, env)
+
+
+def _oracle_program(prog, rng, stats, env):
     """runs the program on the real classes and on plain lists.  Returns the list of property failures
     [(key, what, failing_step)]: a failure at a constructor is recorded and the history continues from the object as
     it is; the first failure at a filter / addition ends the history."""
@@ -1437,8 +1663,23 @@ def oracle_program(prog, rng=None, stats=None):
                 kw = kwargs_from_json(kwj)
                 origin = origin_of(kwj)
                 try:
-                    s = w.load(step["src"], kw, step.get("form", "pos"), step.get("explicit_default", False))
+                    s = w.load(step["src"], kw, step.get("form", "pos"), step.get("explicit_default", False), step.get("input"))
+                    s = transform(s, step.get("copy"))
+                    w.register_rows(step["src"], s)
+                    if stats is not None:
+                        for dev, val in (("copy", step.get("copy")), ("input", step.get("input")), ("text", "+".join(d.get("text") or []))):
+                            if val:
+                                stats[f"device/{dev}/{val}"] = stats.get(f"device/{dev}/{val}", 0) + 1
+                        if d.get("ext") == "old":
+                            stats["device/oscar-layout/20-columns"] = stats.get("device/oscar-layout/20-columns", 0) + 1
                 except Exception as e:
+                    if step.get("copy") or step.get("input"):
+                        try:
+                            w.load(step["src"], kw)
+                        except Exception:
+                            return fails
+                        raise Fail(f"{CLSNAME[cls]}-ctor-copy-or-input-form", f"{step_text(step)}: the plain call works, but with "
+                                   f"copy={step.get('copy')} input={step.get('input')} it raised {type(e).__name__}: {e}")
                     if step.get("form", "pos") != "pos" or step.get("explicit_default"):
                         try:
                             w.load(step["src"], kw)
@@ -1458,7 +1699,7 @@ def oracle_program(prog, rng=None, stats=None):
                 try:
                     if "filters" not in kw and len(s.particle_objects_list()) != nsel:
                         raise Fail(f"{CLSNAME[cls]}-ctor-contents", f"[{origin}] {nsel} events selected, {len(s.particle_objects_list())} held")
-                    check_state(s, ref, cls, origin)
+                    check_state(s, ref, cls, origin, rowof=w.rowof)
                 except Fail as f:
                     fails.append((f.key, f.what, i))
                 if "filters" in kw:
@@ -1495,7 +1736,7 @@ def oracle_program(prog, rng=None, stats=None):
                     else:
                         if not compatible:
                             raise Fail("add-incompatible-accepted", f"{step_text(step)} did not raise")
-                    check_state(s, ref, cls, "filter")
+                    check_state(s, ref, cls, "filter", rowof=w.rowof)
                 elif name in NOT_IMPLEMENTED[cls]:
                     before = deep_state(s)
                     try:
@@ -1510,7 +1751,7 @@ def oracle_program(prog, rng=None, stats=None):
                     d1 = state_diff(before, deep_state(s))
                     if d1:
                         raise Fail(f"error-path:object-changed-by-failed-call:{name}", f"[{CLSNAME[cls]}] {step_text(step)} changed {d1}")
-                    check_state(s, ref, cls, "filter")
+                    check_state(s, ref, cls, "filter", rowof=w.rowof)
                 else:
                     pol_now = s.particle_objects_list()
                     unset_pdg = name in pmodel.NEEDS_PDG and any(p.pdg != p.pdg for ev in pol_now for p in ev)
@@ -1540,7 +1781,7 @@ def oracle_program(prog, rng=None, stats=None):
                                 where = "first" if pos and pos[0] == 0 else ("last" if pos and pos[0] == len(pol_now) - 1 else "middle")
                                 why = f"midway/{where}-event"
                             stats[f"error-path/{why}/{name}"] = stats.get(f"error-path/{why}/{name}", 0) + 1
-                        check_state(s, ref, cls, "filter")
+                        check_state(s, ref, cls, "filter", rowof=w.rowof)
                     else:
                         try:
                             exp = pmodel.ref_filter(name, args, ref["events"]) if ref["events"] else []
@@ -1553,7 +1794,7 @@ def oracle_program(prog, rng=None, stats=None):
                         if stats is not None:
                             stats[f"call-form/{step.get('form', 'pos')}"] = stats.get(f"call-form/{step.get('form', 'pos')}", 0) + 1
                         ref["events"] = exp
-                        check_state(s, ref, cls, "filter")
+                        check_state(s, ref, cls, "filter", rowof=w.rowof)
             else:
                 a, b = w.regs[step["a"]], w.regs[step["b"]]
                 ra, rb = refs[step["a"]], refs[step["b"]]
@@ -1576,10 +1817,24 @@ def oracle_program(prog, rng=None, stats=None):
                     raise Fail("add-mutates-operand", f"[{CLSNAME[ma['kind']]}] a or b changed by a+b")
                 first = ra["first"] if ra["events"] else rb["first"]
                 ref = {"events": ra["events"] + rb["events"], "first": first}
+                if step.get("copy"):
+                    c2 = transform(c, step["copy"])
+                    if stats is not None:
+                        stats[f"device/copy-of-sum/{step['copy']}"] = stats.get(f"device/copy-of-sum/{step['copy']}", 0) + 1
+                    olds = [p for ev in c.particle_objects_list() for p in ev]
+                    news = [p for ev in c2.particle_objects_list() for p in ev]
+                    if len(olds) == len(news):
+                        m = {id(o_): n_ for o_, n_ in zip(olds, news)}
+                        for o_, n_ in zip(olds, news):
+                            if id(o_) in w.rowof:
+                                w.rowof[id(n_)] = w.rowof[id(o_)]
+                            w.keep.append(n_)
+                        ref = {"events": [[m[id(p)] for p in ev] for ev in ref["events"]], "first": ref["first"]}
+                    c = c2
                 w.regs.append(c)
                 w.meta.append(dict(ma))
                 refs.append(ref)
-                check_state(c, ref, ma["kind"], "add")
+                check_state(c, ref, ma["kind"], "add", rowof=w.rowof)
                 if rng is not None and rng.random() < 0.5:
                     # associativity with a third compatible register
                     cand = [j for j, m in enumerate(w.meta[:-1]) if m == ma]
@@ -1599,6 +1854,11 @@ def oracle_program(prog, rng=None, stats=None):
             return fails
         if op == "add" and ({step["a"], step["b"]} & erred):
             erred.add(len(w.regs) - 1)
+        ch = env.changed()
+        if ch:
+            fails.append(("env:global-state-changed:" + "+".join(ch), f"{step_text(step)} left {ch} different from what it found "
+                          "(cwd / np.geterr() / numpy print options / `random` / `np.random` global state)", i))
+            return fails
         # every OTHER storer of the program (in particular the operands of earlier additions and the sums built from
         # a storer that is filtered now) must still be what the plain-list reference says: no step may reach into
         # another storer through a shared list / array
@@ -1613,7 +1873,7 @@ def oracle_program(prog, rng=None, stats=None):
             if r == target or creators[r] in bad_leaf or w.regs[target] is s_r:
                 continue
             try:
-                check_state(s_r, ref_r, w.meta[r]["kind"], "later")
+                check_state(s_r, ref_r, w.meta[r]["kind"], "later", rowof=w.rowof)
             except Fail as f:
                 fails.append(("add-operand-modified-later",
                               f"step {i} ({step_text(step)}) changed another storer r{r} ({step_text(prog['steps'][creators[r]])}): {f.what}", i))
@@ -1704,6 +1964,22 @@ def error_path_programs(rng, n):
     return progs
 
 
+def with_devices(rng, prog):
+    """round-4 devices on a generated program: objects under test / input objects replaced by copies before use,
+    list subclasses / tuple events for the nested list, sometimes the unusual process environment"""
+    for st in prog["steps"]:
+        if st["op"] == "leaf":
+            if rng.random() < 0.2:
+                st["copy"] = rng.choice(COPY_MODES)
+            if prog["sources"][st["src"]]["kind"] == "p" and rng.random() < 0.3:
+                st["input"] = rng.choice(["deepcopy", "pickle", "listsubclass", "tuple-events"])
+        elif st["op"] == "add" and rng.random() < 0.15:
+            st["copy"] = rng.choice(COPY_MODES)
+    if "env" not in prog and rng.random() < 0.2:
+        prog["env"] = True
+    return prog
+
+
 def with_forms(rng, prog):
     """give every call of a program that has none yet one of the equivalent call forms"""
     for st in prog["steps"]:
@@ -1719,6 +1995,67 @@ def with_forms(rng, prog):
     return prog
 
 
+def layout_programs(rng, n):
+    """sums of Oscar objects read from files of different column layouts that report the same format
+    (Oscar2013Extended with and without the trailing baryon_number / strangeness columns), in both orders, with partial
+    loads and an operand emptied by constructor filters; particle_list() rows are judged against the files' own lines"""
+    progs = []
+    for i in range(n):
+        new, old = gen_file(rng, "o", True), gen_file(rng, "o", True)
+        for d, lay in ((new, True), (old, "old")):
+            d["ext"] = lay
+            d["events"] = renumber(d, [[gen_oscar_row(rng, lay) for _ in range(m)] for m in gen_sizes(rng, 3)])
+        kws = [{}, {}]
+        for k in (0, 1):
+            r = rng.random()
+            nev = len((new, old)[k]["events"])
+            if r < 0.2:
+                kws[k] = {"events": arg_to_json(rng.randrange(nev))}
+            elif r < 0.35:
+                kws[k] = kwargs_to_json({"filters": {"multiplicity_cut": (50, None)}})     # holds no event afterwards
+        a, b = (0, 1) if i % 2 == 0 else (1, 0)
+        steps = [{"op": "leaf", "src": "s0", "kwargs": kws[0]}, {"op": "leaf", "src": "s1", "kwargs": kws[1]},
+                 {"op": "add", "a": a, "b": b}, {"op": "add", "a": b, "b": a}]
+        name, args = pmodel.gen_call(rng, ["charged_particles", "pT_cut", "multiplicity_cut", "uncharged_particles"])
+        steps.append({"op": "filter", "reg": 2, "name": name, "args": args_to_json(args)})
+        steps.append({"op": "add", "a": 2, "b": 3})
+        progs.append(with_forms(rng, {"sources": {"s0": new, "s1": old}, "steps": steps}))
+    return progs
+
+
+def iterator_checks(ctx, rng):
+    """ParticleObjectStorer documents "a list of lists"; its loader documents TypeError for anything that is not a list.
+    Tuples, numpy object arrays and one-shot iterators (iter(list), generator, map) must therefore be rejected — or, if a
+    version accepts one of them, give exactly the storer the list gives."""
+    from sparkx.ParticleObjectStorer import ParticleObjectStorer
+
+    def nested():
+        return [[pmodel.make_particle(pmodel.gen_spec(rng, 0.1)) for _ in range(m)] for m in (2, 0, 3)]
+    forms = {"tuple": tuple, "ndarray": lambda l: np.array([np.array(ev, dtype=object) for ev in l] + [None], dtype=object)[:-1],
+             "iter": iter, "generator": lambda l: (ev for ev in l), "map": lambda l: map(list, l)}
+    for name, f in forms.items():
+        base = nested()
+        want = ParticleObjectStorer([list(ev) for ev in base])
+        try:
+            got = ParticleObjectStorer(f([list(ev) for ev in base]))
+        except TypeError:
+            ctx.count(f"device/iterator-input/{name}/rejected-TypeError")
+            continue
+        except Exception as e:
+            ctx.violation("pobj-ctor-nonlist-input", f"ParticleObjectStorer({name} of events) raised {type(e).__name__} instead of the "
+                          f"documented TypeError: {e}", dict(input=dict(form=name), how_to_replay="see harness/props/C04.py iterator_checks"))
+            continue
+        ctx.count(f"device/iterator-input/{name}/accepted")
+        same = (got.num_events() == want.num_events()
+                and np.array_equal(np.asarray(got.num_output_per_event()), np.asarray(want.num_output_per_event()))
+                and [[id(p) for p in ev] for ev in got.particle_objects_list()] == [[id(p) for p in ev] for ev in want.particle_objects_list()])
+        if not same:
+            ctx.violation("pobj-ctor-nonlist-input", f"ParticleObjectStorer({name} of events) is accepted but differs from the storer "
+                          f"built from the list: num_events {got.num_events()} vs {want.num_events()}, counts "
+                          f"{np.asarray(got.num_output_per_event()).tolist()} vs {np.asarray(want.num_output_per_event()).tolist()}",
+                          dict(input=dict(form=name), how_to_replay="see harness/props/C04.py iterator_checks"))
+
+
 def base_key(key):
     return key[len("instance-reuse-after-error:"):] if key.startswith("instance-reuse-after-error:") else key
 
@@ -1730,9 +2067,12 @@ def search(ctx, budget_s):
     limit = 9000 if ctx.thorough else 900
     seen = set()
     todo = [prog for _, prog, _ in corpus_programs()] + \
-        [with_forms(rng, p_) for p_ in systematic_programs(rng, None if ctx.thorough else 30) +
-         ctor_filter_programs(rng, 2400 if ctx.thorough else 240)] + error_path_programs(rng, 1500 if ctx.thorough else 150)
+        [with_devices(rng, with_forms(rng, p_)) for p_ in systematic_programs(rng, None if ctx.thorough else 30) +
+         ctor_filter_programs(rng, 2400 if ctx.thorough else 240)] + \
+        [with_devices(rng, p_) for p_ in error_path_programs(rng, 1500 if ctx.thorough else 150) +
+         layout_programs(rng, 600 if ctx.thorough else 60)]
     stats = {}
+    iterator_checks(ctx, rng)
     while (time.time() - t0 < budget_s and n < limit) or todo:
         prog = todo.pop() if todo else gen_program(rng)
         n += 1
@@ -1753,6 +2093,8 @@ def search(ctx, budget_s):
         ctx.count(k, v)
     ctx.cov["error_path"] = {k[len("error-path/"):]: v for k, v in sorted(stats.items()) if k.startswith("error-path/")}
     ctx.cov["filters_on_unset_pdg"] = {k[len("pdg-unset/"):]: v for k, v in sorted(stats.items()) if k.startswith("pdg-unset/")}
+    ctx.cov["round4_devices"] = {k[len("device/"):]: v for k, v in sorted(stats.items()) if k.startswith("device/")}
+    ctx.cov["text_variants_read_like_plain_file"] = dict(_TEXT_OK)
     ctx.cov["call_forms"] = {k[len("call-form/"):]: v for k, v in stats.items() if k.startswith("call-form/")}
     ctx.cov["ctor_filters_order"] = dict(multi_entry_dicts=stats.get("ctor-filters/multi-entry-dicts", 0),
                                          order_sensitive=stats.get("ctor-filters/order-sensitive", 0),
